@@ -95,6 +95,7 @@ def check(run):
                 'completes with correct values and re-runs nothing finished; whole history (crash, removeLocks, recovery) replayed through the Lean model; file-system level kill points '
                 'inside a write are C05; thorough adds real SIGKILL of real processes; non-trivial = the worker died holding a lock; distinct by (program, params)')
     drv = X.setup(run, THEOREMS)
+    X.loop_correspondence(run, drv)
     rng = core.rng_for(run.seed, 'c13')
     scratch = core.scratch_dir()
     try:
@@ -146,7 +147,7 @@ def replay(path):
         import signal
         from jugverif import procmode
         p = d['replay']['params']
-        obs = procmode.signal_case(p.get('n', 4), p['k'], signal.SIGKILL)
+        obs = procmode.signal_case(p.get('n', 4), p['k'], signal.SIGKILL, barrier=p.get('barrier', False))
         run = core.Run('C13', 'quick')
         procmode.judge_kill(run, obs, p)
         print({k: v for k, v in obs.items() if k not in ('calls', 'calls_before')})
